@@ -198,6 +198,38 @@ pub fn verify_hostile(ctx: &Ctx, rep: &mut Report) {
     rep.require("verify_true", 1);
 }
 
+/// verify on (salt, message) pairs whose hash stream has unusually many rejected chunks (found
+/// with the reference hash only; see C14 extremes): the hashing step of verify under the panic
+/// monitor on inputs that typical workloads never produce.
+pub fn hash_extremes(ctx: &Ctx, rep: &mut Report) {
+    let xs = super::c14::extreme_inputs(ctx.seed ^ 0x33, ctx.sz(4_000_000, 120_000_000), ctx.sz(3000, 60000));
+    let mut rng = rng_for(ctx.seed, "c03-hx");
+    let pk5 = synth_pk::<F512>(&mut rng);
+    let pk10 = synth_pk::<F1024>(&mut rng);
+    let (p5, p10) = (F512::pk_from_bytes(&pk5), F1024::pk_from_bytes(&pk10));
+    let body5 = spec::compress(&vec![0i64; 512], 625).unwrap();
+    let body10 = spec::compress(&vec![0i64; 1024], 1239).unwrap();
+    if let (Ok(p5), Ok(p10)) = (p5, p10) {
+        for (_, s) in &xs {
+            // the 40 first bytes are the salt, the rest the message
+            let mut sb = vec![0x59u8];
+            sb.extend_from_slice(&s[..40]);
+            sb.extend_from_slice(&body5);
+            verify_one::<F512>("hash-extreme", &s[40..], &sb, &p5, &pk5, rep);
+            let mut sb = vec![0x5au8];
+            sb.extend_from_slice(&s[..40]);
+            sb.extend_from_slice(&body10);
+            verify_one::<F1024>("hash-extreme", &s[40..], &sb, &p10, &pk10, rep);
+            rep.nontrivial(s);
+            rep.count("hash_extreme_inputs", 1);
+        }
+    }
+    if let Some((c, s)) = xs.first() {
+        rep.sample(json!({"salt_and_message": hex(s), "chunks_consumed_for_512_coefficients": c, "typical": 546}));
+    }
+    rep.require("hash_extreme_inputs", 100);
+}
+
 /// Write structured seeds for the libFuzzer target (first byte = selector of the target).
 pub fn dump_corpus(ctx: &Ctx, rep: &mut Report) {
     let dir = match ctx.args.first() {
